@@ -62,6 +62,7 @@ type Contract struct {
 	Fields   map[string][]string // classification of the receiver struct's fields by kind (reset contracts)
 	Records  []Clause            // ghost instrumentation: assumed after calls, not checked against the body
 	Stable   []string            // package-level variables assumed not to be modified by uncontracted calls
+	Dead     map[string]bool     // returns claimed unreachable ("ret6")
 }
 
 type ContractSet struct {
@@ -264,6 +265,16 @@ func (cs *ContractSet) parseContractFile(path, pkgPath string, trusted bool) err
 				cur.Replay = rest
 			case "nosafety":
 				cur.NoSafety = true
+			case "dead":
+				// dead retN "reason": that return is claimed unreachable; the claim is an obligation (instead of the
+				// reachability guard that every other return gets)
+				f := strings.Fields(rest)
+				if len(f) > 0 {
+					if cur.Dead == nil {
+						cur.Dead = map[string]bool{}
+					}
+					cur.Dead[f[0]] = true
+				}
 			case "overflow":
 				cur.Overflow = append(cur.Overflow, strings.Fields(rest)...)
 				if len(cur.Overflow) == 0 {
